@@ -80,6 +80,8 @@ def d_rounds(g, tier):
     ops = []
     for i in range(100 if tier == "quick" else 1500):
         ops += gen.rounds_session(g)
+    for i in range(16 if tier == "quick" else 200):
+        ops += gen.lagged_twins_session(g, "v9" if i % 2 == 0 else "ipfix")
     return ops
 
 
